@@ -91,7 +91,7 @@ EXPORT errno_t _memchr_s_chk(const void *restrict dest, rsize_t dmax,
         CHK_DEST_MEM_OVR("memchr_s", destbos)
     }
     if (unlikely(ch > 255)) {
-        invoke_safe_str_constraint_handler("memchr_s: ch exceeds max", NULL,
+        invoke_safe_mem_constraint_handler("memchr_s: ch exceeds max", NULL,
                                            ESLEMAX);
         return (ESLEMAX);
     }
